@@ -6,6 +6,7 @@ import (
 	"go/token"
 	"go/types"
 	"sort"
+	"strings"
 
 	"golang.org/x/tools/go/ssa"
 )
@@ -238,8 +239,9 @@ func (a *allocInfo) analyseSite(f *ssa.Function, s allocSite) siteOutcome {
 	}
 	notAllocOnErr := a.errImpliesNotAllocated(s)
 	reach := reachableFrom(s.call.Block())
-	isV := func(x ssa.Value) bool { return resolve(x) == s.v }
-	isErr := func(x ssa.Value) bool { return s.errV != nil && resolve(x) == s.errV }
+	// the value itself, or a merge (phi) all of whose edges that can come from this site carry it
+	isV := func(x ssa.Value) bool { return carries(x, s.v, reach) }
+	isErr := func(x ssa.Value) bool { return s.errV != nil && carries(x, s.errV, reach) }
 	skip := func(from *ssa.BasicBlock, si int) bool {
 		iff := ifOf(from)
 		if iff == nil {
@@ -491,24 +493,82 @@ func checkC04(p *Prog, res *Result, tier string) {
 			nSink++
 			construct := fmt.Sprintf("%s: sink call #%d", funcName(f), countBefore(f, c, func(x ssa.CallInstruction) bool { _, _, _, k := r.sinkCallArgs(x); return k })+1)
 			pos := p.pos(c.Pos())
-			call, idx, isEx := extractOf(rev)
-			if !isEx {
-				res.bad("C04-R4", construct, pos, "the revision argument is not the result of a call (expected: result of the function that allocated and committed)")
-				continue
+			// the cases to verify: one (revision, error) pair, or one pair per incoming edge when two writers' results
+			// are merged into one report (phi of revisions and phi of errors in the same block)
+			type rcase struct {
+				rev, err ssa.Value
+				pred     *ssa.BasicBlock // nil: the sink call itself must be dominated
 			}
-			sc := call.Common().StaticCallee()
-			ai, isAlloc := a.allocRet[sc]
-			if sc == nil || !isAlloc || ai != idx {
-				res.bad("C04-R4", construct, pos, fmt.Sprintf("the revision argument is result #%d of %v, which is not an allocated revision", idx, call.Common().Value))
-				continue
+			var cases []rcase
+			revR, errR := resolve(rev), resolve(errv)
+			// sameErr: v denotes the same error value as the err argument (same SSA value, or two loads of one variable
+			// reached by the same assignments)
+			sameErr := func(v ssa.Value) bool {
+				v = resolve(v)
+				if v == errR {
+					return true
+				}
+				l1, ok1 := v.(*ssa.UnOp)
+				l2, ok2 := errR.(*ssa.UnOp)
+				if !ok1 || !ok2 || l1.X != l2.X {
+					return false
+				}
+				cell, ok := l1.X.(*ssa.Alloc)
+				if !ok {
+					return false
+				}
+				s1, z1, k1 := reachingStores(cell, l1)
+				s2, z2, k2 := reachingStores(cell, l2)
+				if !k1 || !k2 || z1 != z2 || len(s1) != len(s2) {
+					return false
+				}
+				for i := range s1 {
+					if s1[i] != s2[i] {
+						return false
+					}
+				}
+				return true
 			}
-			ei := errorResultIndex(sc.Signature)
-			if ei < 0 {
-				res.bad("C04-R4", construct, pos, "the allocator has no error result to derive validity from")
-				continue
+			if ph, ok := revR.(*ssa.Phi); ok {
+				okMerge := false
+				if eph, ok2 := errR.(*ssa.Phi); ok2 && eph.Block() == ph.Block() {
+					okMerge = true
+					for i := range ph.Edges {
+						cases = append(cases, rcase{ph.Edges[i], eph.Edges[i], ph.Block().Preds[i]})
+					}
+				} else if ld, ok2 := errR.(*ssa.UnOp); ok2 {
+					// the error lives in a variable (a named result captured by a deferred function): one assignment per edge
+					if cell, ok3 := ld.X.(*ssa.Alloc); ok3 {
+						if sts, zero, ok4 := reachingStores(cell, ld); ok4 && !zero && len(sts) == len(ph.Edges) {
+							okMerge = true
+							for i := range ph.Edges {
+								pred := ph.Block().Preds[i]
+								var hit *ssa.Store
+								for _, st := range sts {
+									if st.Block() == pred || st.Block().Dominates(pred) {
+										if hit != nil {
+											okMerge = false
+										}
+										hit = st
+									}
+								}
+								if hit == nil {
+									okMerge = false
+									break
+								}
+								cases = append(cases, rcase{ph.Edges[i], hit.Val, pred})
+							}
+						}
+					}
+				}
+				if !okMerge {
+					res.bad("C04-R4", construct, pos, "the revision argument merges the results of several calls but the err argument does not merge the errors of the same calls")
+					continue
+				}
+			} else {
+				cases = append(cases, rcase{rev, errv, nil})
 			}
-			errEx := extractsOf(call)[ei]
-			// valid must be (err == nil)
+			// valid must be (err == nil) for the very err value passed
 			vb, okv := resolve(valid).(*ssa.BinOp)
 			goodValid := false
 			if okv && vb.Op == token.EQL {
@@ -516,21 +576,47 @@ func checkC04(p *Prog, res *Result, tier string) {
 				if isNilConst(x) {
 					x, y = y, x
 				}
-				goodValid = isNilConst(y) && resolve(x) == errEx
+				goodValid = isNilConst(y) && sameErr(x)
 			}
-			if !goodValid {
-				res.bad("C04-R4", construct, pos, fmt.Sprintf("the valid argument (%s) is not `err == nil` for the error returned by %s", valid.String(), funcName(sc)))
+			bad := ""
+			var names []string
+			for _, cs := range cases {
+				call, idx, isEx := extractOf(cs.rev)
+				if !isEx {
+					bad = "the revision argument is not the result of a call (expected: result of the function that allocated and committed)"
+					break
+				}
+				sc := call.Common().StaticCallee()
+				ai, isAlloc := a.allocRet[sc]
+				if sc == nil || !isAlloc || ai != idx {
+					bad = fmt.Sprintf("the revision argument is result #%d of %v, which is not an allocated revision", idx, call.Common().Value)
+					break
+				}
+				ei := errorResultIndex(sc.Signature)
+				if ei < 0 {
+					bad = "the allocator has no error result to derive validity from"
+					break
+				}
+				errEx := extractsOf(call)[ei]
+				if !goodValid {
+					bad = fmt.Sprintf("the valid argument (%s) is not `err == nil` for the error returned by %s", valid.String(), funcName(sc))
+					break
+				}
+				if resolve(cs.err) != errEx {
+					bad = fmt.Sprintf("the err argument is not the error returned by %s", funcName(sc))
+					break
+				}
+				if cs.pred == nil && !instrDominates(call, c.(ssa.Instruction)) || cs.pred != nil && !call.Block().Dominates(cs.pred) {
+					bad = "the allocator call does not dominate the sink call"
+					break
+				}
+				names = append(names, funcName(sc))
+			}
+			if bad != "" {
+				res.bad("C04-R4", construct, pos, bad)
 				continue
 			}
-			if resolve(errv) != errEx {
-				res.bad("C04-R4", construct, pos, fmt.Sprintf("the err argument is not the error returned by %s", funcName(sc)))
-				continue
-			}
-			if !instrDominates(call, c.(ssa.Instruction)) {
-				res.bad("C04-R4", construct, pos, "the allocator call does not dominate the sink call")
-				continue
-			}
-			res.ok("C04-R4", construct, pos, fmt.Sprintf("revision, valid == (err == nil) and err all come from the returned call of %s", funcName(sc)))
+			res.ok("C04-R4", construct, pos, fmt.Sprintf("revision, valid == (err == nil) and err all come from the returned call of %s", strings.Join(names, " / ")))
 		}
 	}
 	// no sink call inside a function that directly commits a batch
